@@ -241,8 +241,10 @@ def await_gather(I, st, v, node):
         x = it[1] if star else it
         if x.ty == "CoroList":
             coros.append(x.term)
+            st.ghost.setdefault("$batches", [])
+            st.ghost["$batches"] = st.ghost["$batches"] + [x.term]
         elif x.ty == "Coro":
-            coros.append((x.term[0], x.term[1], None))
+            coros.append((x.term[0], x.term[1], None, [], None))
         elif star and is_ref(strip_opt(x.ty)) and I.kd_of(x).kind in ("list", "set") and strip_opt(I.kd_of(x).V if I.kd_of(x).kind == "list" else I.kd_of(x).K) == ("Ref", "Task"):
             task_lists.append(x)
         elif star and x.extra and x.extra[0] in ("emptylist",):
@@ -250,7 +252,7 @@ def await_gather(I, st, v, node):
         else:
             raise Unsupported("asyncio.gather of %s (line %s)" % (x.ty, getattr(node, "lineno", "?")))
     raise_keys = []
-    for fi, argmap, guard in coros:
+    for fi, argmap, guard, bound, _src in coros:
         c = I.db.get(fi.qualname)
         if c is None:
             raise Unsupported("asyncio.gather of coroutine %s without a contract" % fi.qualname)
@@ -261,13 +263,20 @@ def await_gather(I, st, v, node):
             g = specs.eval_clause(I, st, cl, env, fi)
             if guard is not None:
                 g = z3.Implies(guard, g)
+            if bound:
+                g = z3.ForAll(bound, g)
             st.oblige("%s.pre[%s]" % (site, cl.label), g, meta={"kind": "call_pre", "callee": fi.qualname, "clause": cl.text,
                                                                "line": getattr(node, "lineno", None)})
-        locs = calls.modifies_locations(I, st, c, env, c.modifies)
-        calls.havoc_locations(I, st, locs)
         for k in c.raises:
             if k not in raise_keys:
                 raise_keys.append(k)
+    # all preconditions are demanded at the gather call; then the children run (interleaved)
+    all_locs = []
+    for fi, argmap, guard, bound, _src in coros:
+        c = I.db.get(fi.qualname)
+        all_locs.append(calls.modifies_locations(I, st, c, dict(argmap), c.modifies))
+    for locs in all_locs:
+        calls.havoc_locations(I, st, locs)
     snapshot(I, st)
     suspend(I, st, node)
     if task_lists and not swallow:
@@ -330,6 +339,37 @@ def call_external(I, st, dotted, args, kwargs, node):
         st.ghost["$log_factory"] = args[0]
         return NONE
     raise Unsupported("external call %s (line %s)" % (dotted, getattr(node, "lineno", "?")))
+
+
+def stages_in_order(I, st, fname, event, lists):
+    """ghost trace of gathered batches: the batches awaited so far are exactly the non-empty lists among `lists`, in that
+    order, each batch calling method `fname` with the given event and the list's elements as handlers"""
+    batches = st.ghost.get("$batches", [])
+    n = len(batches)
+    import itertools
+    alts = []
+    for S in itertools.combinations(range(len(lists)), n):
+        conj = []
+        for j, l in enumerate(lists):
+            ne = I.list_len(st, l) > 0
+            conj.append(ne if j in S else z3.Not(ne))
+        ok = True
+        for b, j in zip(batches, S):
+            fi, argmap, guard, bound, src = b
+            if fi.name != fname or src is None:
+                ok = False
+                break
+            conj.append(src.term == lists[j].term)
+            ev = argmap.get("event")
+            conj.append(ev.term == event.term if ev is not None else z3.BoolVal(False))
+            h = argmap.get("handler")
+            items = I.list_items(st, src)
+            if h is None or not (z3.is_select(h.term) and h.term.arg(1).eq(bound[0])):
+                ok = False
+                break
+        if ok:
+            alts.append(z3.And(*conj))
+    return z3.Or(*alts) if alts else z3.BoolVal(False)
 
 
 def log_factory(I, st, entry=False):
